@@ -140,7 +140,13 @@ def main(args):
         for r in ex.map(run_one, ms):
             tag = r["result"]
             exp = r.get("expect", "detected")
-            if exp == "missed":
+            if exp == "quick-may-miss":
+                # a real breakage whose trigger is beyond the quick tier's reach (documented in its meta.json;
+                # the thorough tier reports it): either outcome is acceptable here
+                tag = "detected" if tag == "detected" else ("quick-missed-as-documented" if tag == "MISSED" else tag)
+                if tag not in ("detected", "quick-missed-as-documented"):
+                    missed += 1
+            elif exp == "missed":
                 # control mutants (equivalent rewrites / unreachable changes): detection would be a false alarm
                 if tag == "detected":
                     tag = "FALSE-ALARM"
@@ -152,7 +158,7 @@ def main(args):
             elif tag not in ("detected",):
                 missed += 1
             print(f"{tag:9s} {r['prop']} {r['name']} by={r.get('by')} wall={r.get('wall')}s {r.get('detail', '')} {r.get('note', '')}", flush=True)
-            if tag not in ("detected", "ok-quiet"):
+            if tag not in ("detected", "ok-quiet", "quick-missed-as-documented"):
                 print("          " + json.dumps({k: v for k, v in r.get("results", {}).items()})[:600])
             out.append({k: v for k, v in r.items() if k not in ("old", "new", "extra")})
     json.dump(out, open(os.path.join(VERIF, "mutants", "last_sensitivity.json"), "w"), indent=1)
